@@ -134,4 +134,77 @@ theorem jq_literal_cap_truncates :
     ¬ sameVal (parseDec "1.23E-10".toList) (parseDec "1.2345e-10".toList) := by
   decide
 
+/-- `format_float_yq_with` (shared by `format_float_yq`, `format_float_yq_yaml`) on every text of the
+shape `f64`'s `{:e}` prints – an RFC 8259 number `mantissa e [-]digits` with an `i32` exponent `v`:
+it never panics; inside the window `-4 ≤ v < 6` it returns `ordinary_magnitude(f)` unchanged
+(see `with_fraction_value_preserving` for the JSON variant; the YAML variant is `core`'s `{}` text
+itself); outside the window the re-spelling `mantissa e±NN` denotes the same signed value as the
+`{:e}` text and is an RFC 8259 number (hence also a YAML core-schema float: it contains `e`). -/
+theorem yq_reformat_value_preserving (ordinary : Str) (l : Lit) (hs : l.strict)
+    (s d : Str) (hexp : l.exp = some ('e', s, d)) (hns : s = [] ∨ s = ['-'])
+    (hi32 : (digitsVal d : Int) < 2 ^ 31) :
+    ∃ out, formatFloatYqWith ordinary l.text = some out ∧
+      ((-4 ≤ (if s == ['-'] then -(digitsVal d : Int) else (digitsVal d : Int)) ∧
+        (if s == ['-'] then -(digitsVal d : Int) else (digitsVal d : Int)) < 6) → out = ordinary) ∧
+      (¬ (-4 ≤ (if s == ['-'] then -(digitsVal d : Int) else (digitsVal d : Int)) ∧
+          (if s == ['-'] then -(digitsVal d : Int) else (digitsVal d : Int)) < 6) →
+        sameVal (parseDec out) (parseDec l.text) ∧ isJsonNumber out = true) := by
+  have hw := hs.towf
+  obtain ⟨sign, ip, frac, exp⟩ := l
+  simp only at hexp; subst hexp
+  have he := hw.exp
+  simp only at he
+  have hsS : isSignStr s := by rcases hns with h | h <;> subst h <;> simp [isSignStr]
+  -- the mantissa text contains no 'e'
+  have hmant : 'e' ∉ sign ++ (ip ++ Lit.fracText ⟨sign, ip, frac, some ('e', s, d)⟩) := by
+    simp only [List.mem_append, not_or]
+    refine ⟨not_mem_signStr (by decide) (by decide) sign hw.sign, not_mem_of_allDigits (by decide) ip hw.ip, ?_⟩
+    have hf := hw.frac
+    cases frac with
+    | none => simp [Lit.fracText]
+    | some f =>
+      simp only [Lit.fracText, List.mem_cons, not_or]
+      exact ⟨by decide, not_mem_of_allDigits (by decide) f hf.1⟩
+  have htext : Lit.text ⟨sign, ip, frac, some ('e', s, d)⟩
+      = (sign ++ (ip ++ Lit.fracText ⟨sign, ip, frac, some ('e', s, d)⟩)) ++ 'e' :: (s ++ d) := by
+    simp [Lit.text, Lit.expText]
+  have hsplit := splitOnce_of_not_mem 'e' _ (s ++ d) hmant
+  have hread := readInt_signed s d hsS he.2.2.1 he.2.2.2
+  generalize hv : (if s == ['-'] then -(digitsVal d : Int) else (digitsVal d : Int)) = v at hread ⊢
+  have hrange : -(2 ^ 31 : Int) ≤ v ∧ v ≤ 2 ^ 31 - 1 := by
+    rw [← hv]; split <;> omega
+  have hparse : parseRustInt (-(2 ^ 31)) (2 ^ 31 - 1) (s ++ d) = some v := by
+    simp only [parseRustInt, hread]
+    rw [if_pos hrange]
+  by_cases hwin : -4 ≤ v ∧ v < 6
+  · refine ⟨ordinary, ?_, fun _ => rfl, fun h => absurd hwin h⟩
+    rw [htext]; unfold formatFloatYqWith; simp only [hsplit, hparse, hwin, and_self, if_true]
+  · have hp := pad2_spec v.natAbs
+    let l' : Lit := ⟨sign, ip, frac, some ('e', [if v < 0 then '-' else '+'], pad2 v.natAbs)⟩
+    have hw' : l'.strict :=
+      { sign := hw.sign, ip := hw.ip, frac := hw.frac
+        exp := ⟨Or.inl rfl, by by_cases h : v < 0 <;> simp [h, isSignStr], hp.1, hp.2.2⟩
+        noPlus := hs.noPlus, int := hs.int }
+    refine ⟨l'.text, ?_, fun h => absurd h hwin, fun _ => ?_⟩
+    · rw [htext]; unfold formatFloatYqWith
+      simp only [hsplit, hparse, hwin, if_false]
+      simp [l', Lit.text, Lit.expText, Lit.fracText]
+    · rw [parseDec_text _ hw'.towf, parseDec_text _ hw]
+      refine ⟨?_, isJsonNumber_text _ hw'⟩
+      show Dec.same _ _
+      have hexpv : (if ([if v < 0 then '-' else '+'] == ['-']) = true then -(digitsVal (pad2 v.natAbs) : Int)
+          else (digitsVal (pad2 v.natAbs) : Int)) = v := by
+        rw [hp.2.1]
+        by_cases h : v < 0
+        · simp [h]; omega
+        · simp [h]; omega
+      simp only [Lit.toDec, l', hexpv, hv]
+      exact Dec.same_refl _
+
+example : Lit.text ⟨['-'], ['1'], some ['5'], some ('e', ['-'], ['7'])⟩ = "-1.5e-7".toList := by decide
+example : Lit.strict ⟨['-'], ['1'], some ['5'], some ('e', ['-'], ['7'])⟩ :=
+  { sign := by simp [isSignStr], ip := by decide, frac := ⟨by decide, by simp⟩,
+    exp := ⟨Or.inl rfl, by simp [isSignStr], by decide, by simp⟩,
+    noPlus := by simp, int := Or.inr ⟨'1', [], rfl, by decide⟩ }
+
 end SV.Props.C10
